@@ -1,5 +1,5 @@
 """C06 - a failure fails the model run, and only then (structural clauses only)."""
-from . import deny
+from . import deny, pathrules
 from .common import *
 
 EXPLANATION = ("Decides on the MIR of the current tree: no construct that swallows/aborts a panic exists in the crate (P1, deny-list with "
@@ -184,7 +184,7 @@ def P3(ctx):
         for (pb, msg) in panic_sites(prog, k):
             # panics that can fire before the insertion (capacity-style guards)
             if any(pb not in body.reachable(i) for i in ins) and any(sb in dom[i] for i in ins for (e, pol, v, sb) in guard_atoms(body, pb)
-                                                                    if e[0] == "binop" and "capacity" in canon(e)):
+                                                                    if e[0] == "binop" and ("capacity" in canon(e) or pathrules._is_limit_test(e))):
                 if unreachable_if(body, pb, assume_calls({"std::thread::panicking": True})):
                     ctx.ok("P3", k + ":capacity-guard", "capacity panic skipped while panicking", [site_str(prog, k, pb)])
                 else:
